@@ -99,6 +99,12 @@ def rand_script(rng, n, events):
             v = [rng.choice(elems) for _ in range(rng.randint(0, 3))]
             script.append(dict(a="Assign", o=o, v=v))
             touch(o, v)
+        elif r < 0.66:
+            o = rng.choice(["l1", "l2"])
+            o2 = "l2" if o == "l1" else "l1"
+            v = list(view[o2])
+            script.append({"a": "AssignFrom", "o": o, "from": o2})       # cfg.o = cfg.o2
+            touch(o, v)
         elif r < 0.80:
             o = rng.choice(["l1", "l2"])
             cands = edits_of(view[o], elems, 4, rng)
@@ -155,6 +161,8 @@ def run(pid, tier, seed):
     traces, seen = [], set()
     for i, s in enumerate(scripts):
         pick = dict(s1=i % 3, s2=(i // 3) % 2, l1=(i // 6) % 2, l2=0, offline=(i % 4 == 3))
+        if any(e["a"] == "AssignFrom" for e in s):
+            pick["l1"] = 2          # both list options with the same concrete texts: a copied value keeps its tokens
         if pid == "C11" and i % 5 == 2:
             pick["midboot"] = ["s2", "l1", "s1"][(i // 5) % 3]       # a change by another controller during our bootstrap
         traces.append(cfgh.replay(s, pick))
